@@ -123,4 +123,9 @@ class Subroutine:  # pylint: disable=too-many-instance-attributes
         Returns:
             Returns a list of subroutines called by the subroutine.
         """
-        return list(set(bi.called_subroutine for bi in self._blocks if bi.is_callsub_block))
+        # keep the order of the call sites (first occurrence): the iteration order of a set of
+        # Subroutine objects depends on their addresses, and the order of the subroutines of a
+        # function decides the order in which the analyses process the blocks.
+        return list(
+            dict.fromkeys(bi.called_subroutine for bi in self._blocks if bi.is_callsub_block)
+        )
